@@ -252,7 +252,7 @@ def chunks(tier, seed):
         for p in range(4):
             ch.append({"kind": "exh", "family": fam, "maxseq": maxseq if fam == "register" else max(1, maxseq - 1), "part": p, "of": 4})
         ch.append({"kind": "hier", "family": fam})
-    nrand = {"quick": 2000, "thorough": 40000}.get(tier, 6000)
+    nrand = {"quick": 2000, "thorough": 160000}.get(tier, 6000)
     for i in range(4):
         ch.append({"kind": "random", "seed": seed * 1000 + i, "n": nrand // 4})
     return ch
